@@ -14,6 +14,7 @@ The independent spec (record model, scan, text maps) is speclib/c17_spec.py.
 """
 from __future__ import annotations
 
+import collections
 import copy
 import itertools
 import json
@@ -23,7 +24,7 @@ import random
 import tempfile
 
 from speclib.c17_spec import (R, alternatives, compare, extent, file_ok, gb_feats_of, gb_location, gb_text,
-                              gff_rows_of, gff_spec_records, gff_text, item_kind, match, norm_spans, proj_feature,
+                              gff_attr_text, gff_rows_of, gff_spec_records, gff_text, item_kind, match, norm_spans, proj_feature,
                               proj_full, select, span_kind)
 
 L = 12
@@ -534,8 +535,11 @@ def run_ops(ca, ra, cb, rb, ops, tmp, trace=None):
                         return (i, "class", f"{k} of a {type(A).__name__} gives a {type(new).__name__}")
                     after = raw_rows(new)
                     if before != after:
-                        diff = [x for x in before if x not in after][:1] + [x for x in after if x not in before][:1]
-                        return (i, "rows differ", f"{len(before)} rows before, {len(after)} after; e.g. {diff}")
+                        cb_, ca_ = collections.Counter(before), collections.Counter(after)
+                        diff = [(dict(x).get("name"), cb_[x], ca_[x]) for x in sorted(set(cb_) | set(ca_))
+                                if cb_[x] != ca_[x]][:3]
+                        return (i, "rows differ", f"{len(before)} rows before, {len(after)} after; (name, copies before, "
+                                                  f"copies after) e.g. {diff}")
                     frozen.append((A, list(sa), f"source of {k}"))
                     A = new
             except Exception as e:
@@ -595,9 +599,21 @@ def contract_ops(case):
         if memo in _OPS_MEMO:
             key, m = _OPS_MEMO[memo]
             return ("fail", key, m + f"  [also found with A = {ca} db of {len(ra)} records, operations {ops}]")
-        sops = ([["write"]] if fb else []) + [op]
+        seen, rebuilt = set(), []
+        for rec in recs:              # a flat file cannot hold two features of one name: add repeats by hand
+            if file_ok(cls, rec) and rec["name"] in seen:
+                rec = dict(rec, src="user", attrs=gff_attr_text(rec))
+            elif file_ok(cls, rec):
+                seen.add(rec["name"])
+            rebuilt.append(rec)
+        recs = rebuilt
         rbb = rb if binary else []
+        sops = [op]
         rr = run_ops(cls, recs, cb, rbb, sops, tmp)
+        if fb and not same(rr, len(sops)):
+            sops = [["write"], op]
+            rr = run_ops(cls, recs, cb, rbb, sops, tmp)
+        fb = len(sops) == 2
         if same(rr, len(sops)):
             for rec in list(recs):                       # drop records of A while the failure persists
                 trial = [x for x in recs if x is not rec]
@@ -610,7 +626,7 @@ def contract_ops(case):
             return ("fail", key, m + f"  [found with A = {ca} db of {ra}, operations {ops}]")
         # (2) history dependent: the failing operation with one predecessor, else the whole prefix
         chain = ops[:i + 1]
-        for c in [[ops[j], ops[i]] for j in range(i)]:
+        for c in [[ops[i]]] + [[ops[j], ops[i]] for j in range(i)]:
             if len(c) < len(chain):
                 rr = run_ops(ca, ra, cb, rb, c, tmp)
                 if same(rr, len(c)):
